@@ -238,6 +238,10 @@ class World:
             return M.build_column(spec["dtype"], spec["values"])
         if k == "list":
             return list(spec["values"])
+        if k == "reshaped":
+            # a DataFrameColumn that NumPy has reshaped to 2-D while keeping the subclass
+            col = self.di.DataFrameColumn(M.build_column(spec["dtype"], spec["values"]))
+            return col.reshape(-1, 1) if spec["shape"] == "col" else col.reshape(1, -1)
         raise AssertionError(k)
 
     def frame_callable(self, spec):
@@ -712,6 +716,8 @@ class World:
         k = spec["kind"]
         if k == "scalar":
             return [spec["value"]] * nrow if nrow >= 1 else "either"
+        if k == "reshaped":
+            return None         # never a one-dimensional column vector: must be rejected
         vals = spec["values"]
         if len(vals) == nrow:
             return list(vals)
@@ -755,7 +761,8 @@ class World:
                 if self.value_token(spec, nrow) is None:
                     expect_reject = True
         if not dict.keys(f):
-            expect_reject = False       # no columns yet: any length defines the row count
+            # no columns yet: any length defines the row count (a 2-D value is still no column)
+            expect_reject = any("c" not in s_ and s_["kind"] == "reshaped" for n_, s_ in pairs)
         grouped = bool(op.get("group")) or bool(f._group_colnames)     # the group mark is sticky
         op["defined"] = not expect_reject and not grouped and bool(dict.keys(f)) and nrow >= 1 and \
             not any(s.get("c") in ("raise", "raise_at") for n, s in pairs) and \
@@ -950,7 +957,7 @@ class World:
         value = self.build_value(spec)
         nrow = f.nrow
         has_cols = bool(dict.keys(f))
-        exp = self.value_token(spec, nrow) if has_cols else (
+        exp = self.value_token(spec, nrow) if (has_cols or spec["kind"] == "reshaped") else (
             [spec["value"]] if spec["kind"] == "scalar" else list(spec["values"]))
         expect_reject = exp is None
         either = exp == "either"
@@ -1328,6 +1335,9 @@ class Gen:
                 d = "date"
                 v = r.choice(M.DATES)
             return {"kind": "scalar", "dtype": d, "value": v}
+        if allow_bad and nrow >= 2 and r.random() < self.fault_rate / 2:
+            dt, vals = self.literal_column(nrow, dtype)
+            return {"kind": "reshaped", "dtype": dt, "values": vals, "shape": r.choice(["col", "row"])}
         if x < 0.35:
             n = 1
         elif allow_bad and x < 0.35 + self.fault_rate:
